@@ -13,7 +13,9 @@ EXTENDS Integers, Sequences, FiniteSets, TLC, Json
 
 Formats  == {"json", "yaml"}
 Modes    == {"minimal", "full", "expand"}
-Docs     == {"rich", "nested"}
+\* multifile: the document refers to sibling files by relative $refs (definitions and a shared parameter);
+\* the embedded original is the main file as written, the embedded flattened document must be self-contained
+Docs     == {"rich", "nested", "multifile"}
 \* string content classes placed at the free-text positions of the document
 Contents == {"plain", "backtick", "dquote", "backslash", "newline", "control", "nonascii", "template", "html"}
 
